@@ -113,8 +113,13 @@ StartRun(mode, useCache, cc) ==
    parsed is ignored *)
 ReadLock ==
   /\ p.pc = "readlock"
-  /\ p' = [p EXCEPT !.pc = "handlers", !.cached = IF p.cache /\ lock >= 0 THEN lock ELSE NoRef]
-  /\ UNCHANGED <<fsvars, g>>
+  /\ \/ /\ p' = [p EXCEPT !.pc = "handlers", !.cached = IF p.cache /\ UsableLock(lock) THEN lock ELSE NoRef]
+        /\ g' = g
+     \/ \* the lock file exists but cannot be examined or read: the run gives up before anything else happens
+        /\ FaultOnLock /\ p.cache /\ g.faults < MaxFaults
+        /\ g' = [g EXCEPT !.faults = @ + 1]
+        /\ p' = [p EXCEPT !.pc = "exit2"]
+  /\ UNCHANGED fsvars
 
 (* main.rs:110-118 *)
 InstallHandlers ==
